@@ -148,8 +148,11 @@ func genCopyCase(r *Rng) []Op {
 	case 0: // no destination
 	case 1: // fresh, never written destination
 		ops = g.writeFile(ops, "dst/a.wsp", g.lay, 0)
-	case 2: // other layout
+	case 2: // other layout (unrelated, or the same steps with a longer last archive)
 		other := genLayout(r, false)
+		if r.Bool() {
+			other = nearLayout(r, g.lay)
+		}
 		ops = g.writeFile(ops, "dst/a.wsp", other, r.Intn(2))
 	default:
 		ops = g.writeFile(ops, "dst/a.wsp", g.lay, 1+r.Intn(3))
@@ -211,6 +214,9 @@ func genDiffCase(r *Rng) []Op {
 		lay := g.lay
 		if r.Chance(1, 6) {
 			lay = genLayout(r, false)
+			if r.Bool() {
+				lay = nearLayout(r, g.lay)
+			}
 		}
 		ops = g.writeFile(ops, "dst/a.wsp", lay, 1+r.Intn(3))
 	}
@@ -251,6 +257,9 @@ func genSumCase(r *Rng, prop string) []Op {
 			lay := g.lay
 			if r.Chance(1, 15) {
 				lay = genLayout(r, false)
+			} else if f > 0 && r.Chance(1, 8) {
+				// a near miss: same steps, a longer last archive (equal windows for recent ranges)
+				lay = nearLayout(r, g.lay)
 			}
 			ops = g.writeFile(ops, "src/"+dir+"/"+name, lay, 1+r.Intn(3))
 			if ok, _ := pathMatch(pat, name); ok {
@@ -428,4 +437,13 @@ func genGenerateCase(r *Rng) []Op {
 	// a second generate must refuse to overwrite
 	ops = append(ops, Op{line, true}, Op{fmt.Sprintf("fdisk gen/g.wsp %d", g.lay.HdrSize()), true})
 	return ops
+}
+
+// nearLayout: the same steps, one archive with more points (still a valid layout): files
+// whose fetched windows coincide for recent ranges although their layouts differ
+func nearLayout(r *Rng, l Layout) Layout {
+	n := Layout{append([]int{}, l.Steps...), append([]int{}, l.Ns...)}
+	k := l.K() - 1
+	n.Ns[k] = l.Ns[k] + 1 + r.Intn(l.Ns[k]+1)
+	return n
 }
